@@ -35,9 +35,9 @@ from sim.procs import Installed, ProcWorld, SeamBreach, exit_status, returncode_
 
 ID = "C42"
 LEVEL = "exploration"
-QUICK_N = 40000
+QUICK_N = 20000
 THOROUGH_N = 800000
-CHUNK = 1000
+CHUNK = 500
 RULE = ("gen(seed): 1..4 children (exit code 0..255 or killing signal, +-core flag), registration "
         "mode per child (set_exit_callback / wait_for_exit default, True, False), random merge of "
         "the per-child programs spawn<exit|register, SIGCHLD placed after exits (prompt, late, "
@@ -430,6 +430,11 @@ def run(scn, full_log=False):
         stt = env.stats()
         for k_, v in world.faults.items():
             stt["faults"][k_] = stt["faults"].get(k_, 0) + v
+        for k_ in ("sigchld_spurious", "sigchld_coalesced", "sigchld_late", "sigchld_without_handler",
+                   "sigchld_before_registration", "exit_before_registration", "callback_raised",
+                   "uninitialize_with_handler"):
+            if probes.get(k_):
+                stt["faults"][k_] = probes[k_]
         stt["probes"].update(probes)
         stt["probes"]["waitpid_calls"] = world.waitpid_calls
         outcome = {"callbacks": cb_calls, "reported": reported, "status": run_status}
